@@ -18,14 +18,16 @@
 (*     Label purpose) at a point INSIDE that shape (closed region)           *)
 (*   - nothing else                                                          *)
 (***************************************************************************)
-EXTENDS Contains
+EXTENDS WideContains      \* Contains + the same predicates over the whole 32-bit coordinate range
 
 RectCorners(p) == << <<p[1][1], p[1][2]>>, <<p[2][1], p[1][2]>>, <<p[2][1], p[2][2]>>, <<p[1][1], p[2][2]>> >>
 Outline(e) == IF e.k = "rect" THEN RectCorners(e.pts) ELSE e.pts
 CyclicEq(a, b) ==      \* same closed polygon up to starting vertex (direction kept)
   /\ Len(a) = Len(b)
   /\ \E k \in 0..(Len(a) - 1) : \A i \in 1..Len(a) : a[i] = b[((i + k - 1) % Len(a)) + 1]
-InsideShape(q, e) == IF e.k = "path" THEN PathMust(q, e.pts, e.width) ELSE Inside(q, Outline(e))
+InsideShape(q, e) == IF e.k = "path" THEN PathMust(q, e.pts, e.width)
+                     ELSE IF IsWide(Outline(e)) THEN WInside(q, Outline(e))      \* cross products beyond 32 bits: limb arithmetic
+                     ELSE Inside(q, Outline(e))
 
 \* does GDS element g realise raw element e ?
 ShapeProblem(e, g) ==
